@@ -7,6 +7,7 @@ mod reader;
 mod writer;
 mod segtree;
 mod treap;
+mod bitset;
 
 use util::arg_value;
 
@@ -35,6 +36,8 @@ fn main() {
         ("treap", "record-race") => treap::record_race(seed, arg_value(&args, "--threads").unwrap().parse().unwrap(),
                                                        arg_value(&args, "--draws").unwrap().parse().unwrap(), &out),
         ("treap", "record-shape") => treap::record_shape(seed, &tier, &out),
+        ("bitset", "replay") => bitset::replay(&args[3], &out),
+        ("bitset", "record") => bitset::record(seed, &tier, &out),
         ("writer", "replay") => writer::replay(&args[3], &out),
         ("writer", "record") => writer::record(seed, &tier, &out),
         _ => {
